@@ -528,6 +528,18 @@ func init() {
 			sb := ex.strBytes(s)[s.Len()-p.Len():]
 			return ex.strEq(ex.mkString(sb), p)
 		},
+		"maps.Clone": func(ex *Exec, fn *ssa.Function, a []Value) Value {
+			m, _ := a[0].(*MapObj)
+			if m == nil {
+				return (*MapObj)(nil)
+			}
+			ex.nextID++
+			nm := &MapObj{id: ex.nextID, keyT: m.keyT, valT: m.valT, m: make(map[string]*mapEntry, len(m.m))}
+			for k, e := range m.m {
+				nm.m[k] = &mapEntry{key: e.key, val: e.val}
+			}
+			return nm
+		},
 		"time.Now": func(ex *Exec, fn *ssa.Function, a []Value) Value {
 			ex.w.note("nondeterminism source reached: time.Now")
 			ex.nondet++
